@@ -630,7 +630,9 @@ func (c *wgCtx) check(cfg simrt.Config) ([]mismatch, simrt.Stats, string) {
 			simrt.Run([]func(){func() {
 				builder := graph.NewWeightedAuthorizationModelGraphBuilder()
 				for _, pm := range pre {
-					_ = doBuildWith(builder, pm)
+					o := doBuildWith(builder, pm)
+					// the caller owns what was returned: it may write all over it
+					scribbleWeighted(o.G)
 				}
 				out = doBuildWith(builder, c.pm)
 			}})
@@ -920,6 +922,24 @@ func wgRunOne(b *BatchResult, prop string, seed, run uint64, p wgParams) {
 	} else if r.chance(2) {
 		m = genSeparatorCollision(r)
 		b.Mix["separator_collision_models"]++
+	} else if r.chance(2) {
+		switch r.intn(4) {
+		case 0:
+			m = genDeepNesting(r)
+			b.Mix["deep_nesting_models"]++
+		case 1:
+			m = genLongChain(r)
+			b.Mix["long_chain_models"]++
+		case 2:
+			m = genManyTypes(r)
+			b.Mix["many_types_models"]++
+		case 3:
+			m = genOddNames(r)
+			b.Mix["odd_name_models"]++
+		}
+	}
+	if r.chance(4) && injectAliasing(r, m) {
+		b.Mix["models_with_shared_messages"]++
 	}
 	if (prop == "C05" || prop == "C04") && r.chance(2) && injectEmptyDirect(r, m) {
 		b.Mix["models_with_empty_direct_assignment_under_operator"]++
@@ -1032,7 +1052,14 @@ func wgRunOne(b *BatchResult, prop string, seed, run uint64, p wgParams) {
 	// every clause of the property is evaluated on the last build as usual
 	if run%3 == 0 {
 		wlh := &wlWG{Variant: "base", Model: m}
-		for i := 0; i < 1+r.intn(2); i++ {
+		nh := 1 + r.intn(2)
+		if r.chance(4) {
+			// a long history (counters, caches and leaks that need dozens of
+			// earlier - often failing - builds on the same builder)
+			nh = 35 + r.intn(30)
+			b.Probes["long_builder_histories"]++
+		}
+		for i := 0; i < nh; i++ {
 			var pm *Model
 			if r.chance(50) {
 				// a near-duplicate: same names, one relation dropped or redirected
@@ -1042,7 +1069,13 @@ func wgRunOne(b *BatchResult, prop string, seed, run uint64, p wgParams) {
 				}
 			}
 			if pm == nil {
-				pm = genModel(r, biasKnobs(prop, r, drawKnobs(r)))
+				kk := biasKnobs(prop, r, drawKnobs(r))
+				if nh > 2 {
+					kk.Invalid = true
+					kk.Large = false
+					kk.NObj, kk.MaxRel = 1+r.intn(2), 1+r.intn(3)
+				}
+				pm = genModel(r, kk)
 			}
 			wlh.Prelude = append(wlh.Prelude, pm)
 		}
